@@ -449,65 +449,155 @@ fn huge_sources(found: &mut Vec<(String, String, Value)>, notes: &mut Vec<String
             }
         }
     }
-    // (c) more members than an f32 mantissa or a 24-bit index resolves: 2^24 + 2^23 one-byte members of
-    // value (index mod 251); the grid of n cells gives every member exactly one cell, so the value law is
-    // count(value)/n exactly
+    // (c) fine grids.  One sample is one draw, so the whole grid of m words is enumerated directly (no tree):
+    // member i must be returned for exactly m/n of the m words.  Grids finer than 2^24 cells resolve a sampler
+    // that goes through an f32 or any other 24-bit intermediate; sources larger than 2^24 members likewise.
     {
-        let n: usize = (1 << 24) + (1 << 23);
-        let v: Vec<u8> = (0..n).map(|i| (i % 251) as u8).collect();
-        let mut want_counts = vec![0u64; 251];
-        for x in &v {
-            want_counts[*x as usize] += 1;
+        struct OneWord {
+            w32: u32,
+            w64: u64,
+            draws: u32,
         }
-        n_runs += 2 * n as u64;
-        let outs = mcx::par_map(2, |fi| {
-            let flavour = [2usize, 0][fi];
-            let mut out: Option<(String, String, Value)> = None;
-            let mut counts = vec![0u64; 251];
-            let mut first_idx_parity = [0u64; 2];
-            let mut problem: Option<String> = None;
-            let owned: Option<Result<OneOfCloning<Vec<u8>, u8>, ()>> = if flavour == 0 { Some(IntoDistribution::<u8>::into_distribution(v.clone()).map_err(|_| ())) } else { None };
-            let st = explore(
-                |env| {
-                    let mut rng = ChoiceRng::new(env, Alphabet::Grid(n as u32));
-                    let r = mcx::guarded(|| match flavour {
-                        2 => IntoDistribution::<u8>::into_distribution(&v).map(|d| d.sample(&mut rng)).map_err(|_| ()),
-                        _ => match owned.as_ref().unwrap() {
-                            Ok(d) => Ok(d.sample(&mut rng)),
-                            Err(()) => Err(()),
-                        },
-                    });
-                    drop(rng);
-                    (r, env.draws())
-                },
-                |t, _, (r, draws)| match r {
-                    Ok(Ok(b)) if draws == 1 => {
-                        counts[b as usize] += 1;
-                        first_idx_parity[(t[0].pick % 2) as usize] += 1;
-                    }
-                    Ok(Ok(_)) => problem = Some(format!("{draws} draws for one sample")),
-                    Ok(Err(())) => problem = Some("construction was rejected".into()),
-                    Err(p) => problem = Some(format!("panicked: {p}")),
-                },
-                n as u64 + 10,
-            );
-            let label = format!("{} on {n} one-byte members of value (index mod 251)", FLAVOURS[flavour]);
-            if let Some(p) = problem {
-                out = Some((format!("choice/{flavour}/huge/result"), format!("{label}: {p}"), json!({"check":"C18","scenario":"huge","flavour":flavour,"n":n.to_string()})));
-            } else if !st.capped && st.leaves == n as u64 && counts != want_counts {
-                let worst = (0..251).max_by_key(|i| (counts[*i] as i64 - want_counts[*i] as i64).abs()).unwrap();
-                out = Some((format!("choice/{flavour}/huge/law"), format!("{label}: over the {n} cells of the grid (one per member) value {worst} is returned {} times, it has {} members; {} values deviate", counts[worst], want_counts[worst], (0..251).filter(|i| counts[*i] != want_counts[*i]).count()), json!({"check":"C18","scenario":"huge","flavour":flavour,"n":n.to_string()})));
+        impl rand::RngCore for OneWord {
+            fn next_u32(&mut self) -> u32 {
+                self.draws += 1;
+                self.w32
             }
-            out
-        });
-        for (k, w, r) in outs.into_iter().flatten() {
-            report(k, w, r);
+            fn next_u64(&mut self) -> u64 {
+                self.draws += 1;
+                self.w64
+            }
+            fn fill_bytes(&mut self, dst: &mut [u8]) {
+                self.draws += 1;
+                for (i, b) in dst.iter_mut().enumerate() {
+                    *b = self.w64.to_le_bytes()[i % 8];
+                }
+            }
+        }
+        // (members, cells per member)
+        let shapes: Vec<(usize, usize)> = vec![((1 << 24) + (1 << 23), 1), (3 << 20, 16), (3 << 22, 4), (1_000_000, 17), (65_537, 257), (1009, 16_661)];
+        for (n, per) in shapes {
+            let m = n * per;
+            let v: Vec<u32> = (0..n as u32).collect();
+            for flavour in [0usize, 2] {
+                n_runs += m as u64;
+                let owned: Option<OneOfCloning<Vec<u32>, u32>> = if flavour == 0 { IntoDistribution::<u32>::into_distribution(v.clone()).ok() } else { None };
+                let borrowed = if flavour == 2 { IntoDistribution::<u32>::into_distribution(&v).ok() } else { None };
+                let alpha = Alphabet::Grid(m as u32);
+                let chunks = 64usize;
+                let outs = mcx::par_map(chunks, |c| {
+                    let (lo, hi) = (c * m / chunks, (c + 1) * m / chunks);
+                    // members come back in order over the grid for every monotone sampler; counted generally
+                    let mut wrong: Option<String> = None;
+                    let mut multi = false;
+                    let mut count_prev: (u32, usize) = (u32::MAX, 0);
+                    let mut bad_counts = 0u64;
+                    let mut example: Option<(u32, usize)> = None;
+                    let mut note = |member: u32, cnt: usize, bad_counts: &mut u64, example: &mut Option<(u32, usize)>, edge: bool| {
+                        // (a member whose cells straddle the chunk boundary is judged by the caller)
+                        if !edge && cnt != per {
+                            *bad_counts += 1;
+                            example.get_or_insert((member, cnt));
+                        }
+                    };
+                    let mut first_member: Option<(u32, usize)> = None;
+                    for j in lo..hi {
+                        let mut rng = OneWord { w32: alpha.word32(j as u32), w64: alpha.word64(j as u32), draws: 0 };
+                        let r = match (&owned, &borrowed) {
+                            (Some(d), _) => d.sample(&mut rng),
+                            (_, Some(d)) => d.sample(&mut rng),
+                            _ => {
+                                wrong = Some("construction was rejected".into());
+                                break;
+                            }
+                        };
+                        if rng.draws != 1 {
+                            multi = true;
+                        }
+                        if r as usize >= n {
+                            wrong = Some(format!("returned {r}, not a member"));
+                            break;
+                        }
+                        if r == count_prev.0 {
+                            count_prev.1 += 1;
+                        } else {
+                            if count_prev.0 != u32::MAX {
+                                if first_member.is_none() {
+                                    first_member = Some(count_prev);
+                                } else {
+                                    note(count_prev.0, count_prev.1, &mut bad_counts, &mut example, false);
+                                }
+                            }
+                            if count_prev.0 != u32::MAX && r < count_prev.0 {
+                                wrong = Some("the sampler is not monotone in its word: counting by runs does not apply".into());
+                                break;
+                            }
+                            count_prev = (r, 1);
+                        }
+                    }
+                    (wrong, multi, bad_counts, example, first_member, count_prev)
+                });
+                let label = format!("{} on {n} members, all {m} words of the grid ({per} per member)", FLAVOURS[flavour]);
+                let mut problem: Option<String> = None;
+                let mut multi = false;
+                let mut bad_counts = 0u64;
+                let mut example: Option<(u32, usize)> = None;
+                // stitch the runs that straddle chunk boundaries
+                let mut carry: Option<(u32, usize)> = None;
+                for (wrong, mu, bc, ex, first, last) in outs {
+                    if let Some(w) = wrong {
+                        problem.get_or_insert(w);
+                    }
+                    multi |= mu;
+                    bad_counts += bc;
+                    if example.is_none() {
+                        example = ex;
+                    }
+                    let mut close = |run_: (u32, usize), bad_counts: &mut u64, example: &mut Option<(u32, usize)>| {
+                        if run_.1 != per {
+                            *bad_counts += 1;
+                            example.get_or_insert(run_);
+                        }
+                    };
+                    match (carry, first) {
+                        (Some(c), Some(f)) if c.0 == f.0 => close((c.0, c.1 + f.1), &mut bad_counts, &mut example),
+                        (Some(c), Some(f)) => {
+                            close(c, &mut bad_counts, &mut example);
+                            close(f, &mut bad_counts, &mut example);
+                        }
+                        (None, Some(f)) => close(f, &mut bad_counts, &mut example),
+                        (Some(c), None) if c.0 == last.0 => {
+                            carry = Some((c.0, c.1 + last.1));
+                            continue;
+                        }
+                        (Some(c), None) => close(c, &mut bad_counts, &mut example),
+                        (None, None) => {}
+                    }
+                    carry = Some(last);
+                }
+                if let Some(c) = carry {
+                    if c.1 != per {
+                        bad_counts += 1;
+                        example.get_or_insert(c);
+                    }
+                }
+                if let Some(p) = problem {
+                    if p.contains("not monotone") {
+                        notes.push(format!("{label}: {p}"));
+                    } else {
+                        report(format!("choice/{flavour}/huge/result"), format!("{label}: {p}"), json!({"check":"C18","scenario":"huge","flavour":flavour,"n":n.to_string()}));
+                    }
+                } else if !multi && bad_counts > 0 {
+                    let (mem, cnt) = example.unwrap_or((0, 0));
+                    report(format!("choice/{flavour}/huge/law"), format!("{label}: {bad_counts} members are not returned for exactly {per} words, e.g. member {mem} for {cnt}"), json!({"check":"C18","scenario":"huge","flavour":flavour,"n":n.to_string()}));
+                }
+            }
         }
     }
     n_runs
 }
 fn huge_bound() -> Value {
-    json!("zero-sized members: 2^32-1, 2^32, 2^32+1, 2^32+2, 2^33, 3*2^32, usize::MAX (construction, member count, one sample); one-byte members: 2^32 and 2^32+2 (exact value law 1/2, 1/2 on the grid of two cells); 2^24 + 2^23 one-byte members on the grid of as many cells (exact value law, owning and cloning flavours); owning, borrowing and cloning flavours")
+    json!("zero-sized members: 2^32-1, 2^32, 2^32+1, 2^32+2, 2^33, 3*2^32, usize::MAX (construction, member count, one sample); one-byte members: 2^32 and 2^32+2 (exact value law 1/2, 1/2 on the grid of two cells); fine grids enumerated word by word (one draw per sample): 2^24+2^23 members x 1 cell, 3*2^20 x 16, 3*2^22 x 4, 10^6 x 17, 65537 x 257, 1009 x 16661 cells per member - every member returned for exactly its share of the words (owning and cloning flavours); owning, borrowing and cloning flavours")
 }
 
 /// collection generators: exactly `size` elements, element i is the i-th product
